@@ -453,7 +453,7 @@ def rstructs(structs, public=False):
         lines.append("Wir nennen die %sKombination aus" % ("öffentliche " if public else ""))
         for f in sd["fields"]:
             d = "" if f["def"]["k"] == "none" else " mit Standardwert %s" % rexpr(f["def"])
-            lines.append("\t%s %s%s %s%s," % ({"f": "der", "m": "dem", "n": "dem"}[tgender(f["t"])], "öffentlichen " if public else "", "Buchstaben" if f["t"] == TC else tname(f["t"]), f["n"], d))
+            lines.append("\t%s %s%s %s%s," % ({"f": "der", "m": "dem", "n": "dem"}[tgender(f["t"])], "öffentlichen " if public else "", tname(f["t"]), f["n"], d))
         alias = "ein %s mit %s" % (sd["n"], " und ".join("%s gleich <%s>" % (f["n"], f["n"]) for f in sd["fields"]))
         lines.append('einen %s, und erstellen sie so:\n\t"%s" oder\n\t"ein leerer %s"' % (sd["n"], alias, sd["n"]))
         lines.append("")
@@ -488,7 +488,7 @@ def render(P, extern_funcs=()):
         lines.append("Wir nennen die Kombination aus")
         for f in sd["fields"]:
             d = "" if f["def"]["k"] == "none" else " mit Standardwert %s" % rexpr(f["def"])
-            lines.append("\t%s %s %s%s," % ({"f": "der", "m": "dem"}[tgender(f["t"])], "Buchstaben" if f["t"] == TC else tname(f["t"]), f["n"], d))
+            lines.append("\t%s %s %s%s," % ({"f": "der", "m": "dem"}[tgender(f["t"])], tname(f["t"]), f["n"], d))
         alias = "ein %s mit %s" % (sd["n"], " und ".join("%s gleich <%s>" % (f["n"], f["n"]) for f in sd["fields"]))
         lines.append('einen %s, und erstellen sie so:\n\t"%s" oder\n\t"ein leerer %s"' % (sd["n"], alias, sd["n"]))
         lines.append("")
